@@ -43,11 +43,21 @@ def _rotation():
     return eye + K * s + K.dot(K) * (1 - c)
 
 
+GROUND = [(Fraction(17, 10), (Fraction(3, 10), Fraction(-6, 5), Fraction(21, 10))), (Fraction(1, 20), (-40, 7, 13))]
+
+
 class Placement:
-    def __init__(self, sx, rotated):
+    def __init__(self, sx, rotated, ground=None):
         self.sx = sx
-        self.k = sx.real("k", Fraction(1, 100), 1000)
-        self.t = sx.vec(sx.real("tx", -1000, 1000), sx.real("ty", -1000, 1000), sx.real("tz", -1000, 1000))
+        if ground is None:
+            self.k = sx.real("k", Fraction(1, 100), 1000)
+            self.t = sx.vec(sx.real("tx", -1000, 1000), sx.real("ty", -1000, 1000), sx.real("tz", -1000, 1000))
+        else:
+            # a ground instance of the placement: every query is decided by evaluation. It complements the symbolic
+            # placement, whose run can drown in undecided square-root comparisons exactly when the code is wrong.
+            k, t = GROUND[ground]
+            self.k = sx.const(k)
+            self.t = sx.vec(*t)
         self.Q = _rotation() if rotated else None
 
     def D(self, x, y, z):
@@ -384,8 +394,8 @@ def run_grade(sx, name):
     return "graded" if ok else err
 
 
-def run_shape(sx, name, rotated, grade=False):
-    pl = Placement(sx, rotated)
+def run_shape(sx, name, rotated, grade=False, ground=None):
+    pl = Placement(sx, rotated, ground)
     ents, info = build(name, pl)
     mesh = cb.Mesh()
     for e in ents:
@@ -439,6 +449,9 @@ def jobs(tier, seed):
             if rot and tier == "quick" and name not in ("Cylinder", "Frustum", "ExtrudedRing", "Elbow", "Revolve", "FourCoreDisk"):
                 continue
             js.append({"name": f"{name}|rotated={rot}", "fn": "run_shape", "params": {"name": name, "rotated": rot}})
+        for g in range(len(GROUND)):
+            js.append({"name": f"{name}|ground placement {g}", "fn": "run_shape",
+                       "params": {"name": name, "rotated": bool(g % 2 == 0), "ground": g}})
         js.append({"name": f"{name}|grade, all schedules", "fn": "run_grade", "params": {"name": name},
                    "max_paths": 40 if tier == "quick" else 3000})
     for name in CHAINS:
